@@ -83,6 +83,8 @@ class MorphInterp(ResultInterp):
             if isinstance(o, MaskT):
                 if name == "astype":
                     t = args[0] if args else None
+                    if set(kwargs) - {"copy"}:
+                        return Unknown("mask.astype with options")
                     isb = isinstance(t, Sym) and t.name.split(".")[-1].split(":")[-1] in ("bool", "bool_")
                     return MaskT(o.name, o.ops) if isb else MaskT(o.name, o.ops + ("astype(?)",))
                 if name == "copy":
@@ -110,6 +112,16 @@ class MorphInterp(ResultInterp):
             m = a[0] if a else kwargs.get("input")
             st = kwargs.get("structure", a[1] if len(a) > 1 else None)
             return Term("erosion", lib=name, mask=m, structure=st, iterations=kwargs.get("iterations", a[2] if len(a) > 2 else 1), border_value=kwargs.get("border_value", 0), extra=sorted(k for k in kwargs if k not in ("structure", "iterations", "border_value", "input")))
+        if name in ("numpy.logical_xor", "numpy.bitwise_xor", "numpy.subtract") and len(a) >= 2:
+            out = a[2] if len(a) > 2 else kwargs.get("out")
+            ops = [Term(x.kind, **x.kw) if (x is out and isinstance(x, Term)) else x for x in a[:2]]  # value of `out` before it is overwritten
+            res = self.binop_hook(ast.BitXor() if "xor" in name else ast.Sub(), ops[0], ops[1], node)
+            if isinstance(res, Term) and isinstance(out, Term):
+                # result written into an existing array object: every name bound to it sees it
+                out.kind, out.kw = res.kind, dict(res.kw)
+                return out
+            if isinstance(res, Term):
+                return res
         if short in ("mean", "average") and name.startswith("numpy.") and a:
             x = a[0]
             return Term("mean", of=tuple(x) if isinstance(x, (list, tuple)) else x)
